@@ -372,7 +372,28 @@ func c19Hostile(r *core.Rng) ast.Node {
 }
 
 func c19Session(r *core.Rng) ([]ast.Node, string) {
-	switch r.Intn(8) {
+	switch r.Intn(9) {
+	case 8: // one operand absent (an undefined name), the other of any kind, under every binary operator
+		op := ast.BinaryOps[r.Intn(len(ast.BinaryOps))]
+		other := []ast.Node{il(int64(r.Intn(9))), il(1), ast.FloatLit{V: 2.5}, ast.StrLit{V: "s"}, ast.BoolLit{V: true}, ast.ArrayLit{Elems: []ast.Node{il(1)}}}[r.Intn(6)]
+		l, rr := other, ast.Node(nm("znosuch"))
+		if r.Chance(1, 3) {
+			l, rr = rr, l
+		}
+		switch r.Intn(4) {
+		case 0:
+			return []ast.Node{ast.Binary{Op: op, L: l, R: rr}}, "absent-operand"
+		case 1: // the temp-register form
+			return []ast.Node{ast.Assign{Name: "zv", Value: other}, ast.Binary{Op: "==", L: ast.Binary{Op: op, L: nm("zv"), R: nm("znosuch")}, R: ast.Binary{Op: op, L: nm("zv"), R: nm("zv")}}}, "absent-operand-temp-form"
+		case 2: // in a function, the operand a parameter, the absent one a local that is never assigned
+			pl, pr := ast.Node(nm("a")), ast.Node(nm("zl"))
+			if r.Bool() {
+				pl, pr = pr, pl
+			}
+			return []ast.Node{ast.Assign{Name: "zh", Value: ast.FuncLit{Params: []string{"a", "c"}, Body: ast.Block{Stmts: []ast.Node{ast.If{Cond: nm("c"), Then: ast.Assign{Name: "zl", Value: il(1)}}, ast.Binary{Op: op, L: pl, R: pr}}}}}, icall("zh", other, ast.BoolLit{V: false})}, "absent-operand-in-function"
+		default:
+			return []ast.Node{ast.Assign{Name: "zh", Value: ast.FuncLit{Params: []string{"a"}, Body: ast.Binary{Op: "+", L: ast.Binary{Op: "*", L: ast.Binary{Op: op, L: nm("a"), R: nm("znosuch")}, R: il(3)}, R: il(2)}}}, icall("zh", other)}, "absent-operand-in-function-temp-form"
+		}
 	case 7: // a call inside a while condition that fails when the condition is tested again after a body pass
 		arr := ast.ArrayLit{Elems: []ast.Node{il(int64(r.Range(2, 9))), il(int64(r.Range(3, 9))), ast.StrLit{V: "x"}}}
 		defs := []ast.Node{
@@ -540,7 +561,8 @@ func c19Case(ctx *core.Ctx, idx int) core.Result {
 	}
 	for i, st := range stmts {
 		if i == refuseAt {
-			big := "zbig=[" + strings.Repeat("z,", 32999) + "z]"
+			// (it starts with calls of several names and argument counts: their call sites are compiled, and recorded, before the refusal)
+			big := "zbig=[" + strings.Repeat("zkk(1, 2),zqq(),zkk(3, 4, 5),", 8) + strings.Repeat("z,", 32999) + "z]"
 			var pan any
 			out := ""
 			func() {
